@@ -23,6 +23,7 @@ var checks = map[string][]HarnessSpec{
 		{Name: "HarnessC08Hole", Pkg: "bql", Quick: map[string]int{"N": 2, "ASCII": 1}, Thorough: map[string]int{"N": 3, "ASCII": 1}},
 		{Name: "HarnessC08Tokens", Pkg: "bql", Quick: map[string]int{"L": 6}, Thorough: map[string]int{"L": 9}},
 		{Name: "HarnessC08Corpus", Pkg: "bql"},
+		{Name: "HarnessC08Tail", Pkg: "bql", Quick: map[string]int{"L": 4}, Thorough: map[string]int{"L": 6}, Note: "eleven statement prefixes followed by every viable token tail"},
 	},
 	"C04": {
 		{Name: "HarnessC04Statement", Pkg: "bql", Quick: map[string]int{"K": 1}, Thorough: map[string]int{"K": 1}},
@@ -119,6 +120,7 @@ var checks = map[string][]HarnessSpec{
 		{Name: "HarnessC09Options", Pkg: "store", Quick: map[string]int{"METHOD": 9, "PRE": 1, "ANCHORS": 2}, Thorough: map[string]int{"METHOD": 9, "PRE": 2, "ANCHORS": 3, "OBJPRED": 1}, OnlyThorough: true},
 		{Name: "HarnessC09Latest", Pkg: "store", Quick: map[string]int{"ANCHORS": 2, "EXTRA": 0}, Thorough: map[string]int{"ANCHORS": 4, "EXTRA": 1}, Note: "two or three competing temporal triples"},
 		{Name: "HarnessC09PageOverflow", Pkg: "store"},
+		{Name: "HarnessC09Paging", Pkg: "store", Quick: map[string]int{"M": 7, "N": 4, "KMAX": 4}, Thorough: map[string]int{"M": 9, "N": 5, "KMAX": 5}, Note: "seven results per lookup method, page size and offset symbolic"},
 	},
 	"C05": {
 		{Name: "HarnessC05Node", Pkg: "leaf", Quick: map[string]int{"L": 2}, Thorough: map[string]int{"L": 3}},
